@@ -28,3 +28,11 @@ Definition sum_eqb {A B} (ea : A -> A -> bool) (eb : B -> B -> bool) (x y : A + 
 
 Definition res_map {A B} (f : A -> B) (r : res A) : res B :=
   match r with Ok a => Ok (f a) | Raise e => Raise e end.
+
+(* insertion sort, for comparing set/dict outputs canonically *)
+Fixpoint zinsert (x : Z) (l : list Z) : list Z :=
+  match l with [] => [x] | y :: t => if x <=? y then x :: l else y :: zinsert x t end.
+Definition zsort (l : list Z) : list Z := fold_right zinsert [] l.
+Fixpoint zinsert_pair (x : Z * Z) (l : list (Z * Z)) : list (Z * Z) :=
+  match l with [] => [x] | y :: t => if fst x <=? fst y then x :: l else y :: zinsert_pair x t end.
+Definition zsort_pairs (l : list (Z * Z)) : list (Z * Z) := fold_right zinsert_pair [] l.
